@@ -2,7 +2,6 @@ package printer
 
 import (
 	"fmt"
-	"strconv"
 	"strings"
 
 	"reflect"
@@ -70,6 +69,41 @@ func getMapValueString(m map[string]interface{}, key string) string {
 	}
 	return ""
 }
+// quoteString renders s as a GraphQL string literal: only the escapes the
+// lexer understands are used (strconv.Quote would emit \a, \v, \x7f, \xNN
+// and \U..., none of which is GraphQL). Everything that is a valid source
+// character inside a string is written as is.
+func quoteString(s string) string {
+	const hex = "0123456789ABCDEF"
+	buf := make([]byte, 0, len(s)+2)
+	buf = append(buf, '"')
+	for i := 0; i < len(s); i++ {
+		c := s[i]
+		switch {
+		case c == '"':
+			buf = append(buf, '\\', '"')
+		case c == '\\':
+			buf = append(buf, '\\', '\\')
+		case c == '\b':
+			buf = append(buf, '\\', 'b')
+		case c == '\f':
+			buf = append(buf, '\\', 'f')
+		case c == '\n':
+			buf = append(buf, '\\', 'n')
+		case c == '\r':
+			buf = append(buf, '\\', 'r')
+		case c == '\t':
+			buf = append(buf, '\\', 't')
+		case c < 0x20:
+			buf = append(buf, '\\', 'u', '0', '0', hex[c>>4], hex[c&0xF])
+		default:
+			buf = append(buf, c)
+		}
+	}
+	buf = append(buf, '"')
+	return string(buf)
+}
+
 func getDescription(raw interface{}) string {
 	var desc string
 
@@ -375,7 +409,7 @@ var printDocASTReducer = map[string]visitor.VisitFunc{
 	"StringValue": func(p visitor.VisitFuncParams) (string, interface{}) {
 		switch node := p.Node.(type) {
 		case *ast.StringValue:
-			return visitor.ActionUpdate, strconv.Quote(node.Value)
+			return visitor.ActionUpdate, quoteString(node.Value)
 		case map[string]interface{}:
 			return visitor.ActionUpdate, `"` + getMapValueString(node, "Value") + `"`
 		}
